@@ -144,6 +144,30 @@ fn main() {
                 }
             }
         }
+        "show-pool" => {
+            // debugging aid: print pool jobs and their canonical outcome
+            let corpus = corpus::load(&repo);
+            let from: usize = arg(&args, "--from").and_then(|s| s.parse().ok()).unwrap_or(0);
+            let to: usize = arg(&args, "--to").and_then(|s| s.parse().ok()).unwrap_or(10);
+            let only = arg(&args, "--kind").unwrap_or("").to_string();
+            let chan = seams::init_channel();
+            for k in from..to {
+                let job = c10::pool_job(seed, k, &corpus);
+                if !job.name.starts_with(&only) {
+                    continue;
+                }
+                let res = plan::run_plan(&plan::SimPlan::single(job.clone(), vec![], &[0u8; 16], true, true));
+                let rec = &res.runs[0].record;
+                chan.send(&format!("{} {} argv={:?} outcome={:?} errors={} symbols={} first_error={}", k, job.name, job.argv, rec.outcome, rec.error_lines(), rec.lib.symbol_count, job::strip_ansi(&String::from_utf8_lossy(&rec.stderr)).lines().next().unwrap_or("")));
+                if arg(&args, "--text").is_some() {
+                    for (p, d) in job.disk.files() {
+                        if p.ends_with("prog.asm") {
+                            chan.send(&String::from_utf8_lossy(d));
+                        }
+                    }
+                }
+            }
+        }
         _ => {
             eprintln!("usage: sim check|worker|procworker|classify|replay …");
             std::process::exit(2);
